@@ -38,7 +38,7 @@ class C13Machine(RuleBasedStateMachine):
         wasihyp.LAST['npreopen'] = npre
         self.ex.set_edge(mode)
 
-    @rule(target=live, name=st.sampled_from(['a', 'b.txt', 'dir1', 'dir1/x', 'new1', 'emptydir', 'dir2/sub']),
+    @rule(target=live, name=st.sampled_from(['a', 'b.txt', 'dir1', 'dir1/x', 'new1', 'emptydir', 'dir2/sub', 'devfull', 'devfull']),
           directory=st.booleans(), write=st.booleans(), pre=st.integers(0, 2))
     def path_open(self, name, directory, write, pre):
         ex = self.ex
